@@ -52,6 +52,13 @@ pub fn parse_uint(i: &[u8]) -> nom::IResult<&[u8], u64> {
 
 /// Parse raw BER data into a serializable structure.
 pub fn parse_tag(i: &[u8]) -> nom::IResult<&[u8], StructureTag> {
+    parse_tag_inner(i, 0)
+}
+
+/// Maximum nesting depth of constructed values accepted by the parser.
+pub const MAX_DEPTH: usize = 64;
+
+fn parse_tag_inner(i: &[u8], depth: usize) -> nom::IResult<&[u8], StructureTag> {
     let (mut i, ((class, structure, id), len)) = tuple((parse_type_header, parse_length))(i)?;
 
     let pl: PL = match structure {
@@ -65,9 +72,15 @@ pub fn parse_tag(i: &[u8]) -> nom::IResult<&[u8], StructureTag> {
             let (j, mut content) = take(len)(i)?;
             i = j;
 
+            if depth >= MAX_DEPTH {
+                return Err(nom::Err::Failure(Error::from_error_kind(
+                    content,
+                    ErrorKind::TooLarge,
+                )));
+            }
             let mut tv: Vec<StructureTag> = Vec::new();
             while content.input_len() > 0 {
-                let (j, sub) = parse_tag(content)?;
+                let (j, sub) = parse_tag_inner(content, depth + 1)?;
                 content = j;
                 tv.push(sub);
             }
